@@ -29,6 +29,10 @@ struct Planted {
     budget: u64,
     memory_limit: usize,
     depth: usize,
+    /// direct recursion: how many times the innermost function called itself before the fault (known beforehand), or
+    /// the self-call card of a recursion that runs into the call-stack limit (count read from a global afterwards)
+    recursion: usize,
+    overflow_selfcall: Option<(u64, Vec<String>)>,
     in_submodule: bool,
 }
 
@@ -168,6 +172,14 @@ fn plant(seed: u64) -> Planted {
         (cards, vec![id], k.to_string(), ctx)
     };
 
+    // ---- direct recursion of the innermost function
+    let rec_mode = if depth >= 1 && !expect_compile_error && mode != 9 { rng.below(8) } else { 7 };
+    let recursion = if rec_mode <= 1 { rng.range(1, 12) as usize } else { 0 };
+    let overflow = rec_mode == 2;
+    let mut overflow_selfcall: Option<(u64, Vec<String>)> = None;
+    let (fault_ids, kind) = if overflow { (Vec::new(), "call-stack-overflow-by-recursion".to_string()) } else { (fault_ids, kind) };
+    let mut fault_ids = fault_ids;
+    let mut self_calls: Vec<(u64, Vec<String>)> = Vec::new();
     // ---- the call chain: main -> c1 -> ... -> c_depth, the last one holds the fault
     let mut root = Module::default();
     let mut lib = Module::default();
@@ -189,7 +201,24 @@ fn plant(seed: u64) -> Planted {
     let mut bodies: Vec<Vec<Card>> = Vec::new();
     for k in 0..=depth {
         let mut cards = pad(rng);
-        if k == depth {
+        if k == depth && overflow {
+            // no base case: the recursion ends at the call-stack limit, in the self-call card
+            // (no parameters and no locals: the frames take no room on the value stack, so the call stack fills first)
+            cards.clear();
+            cards.push(setg("depth_reached", bin("add", read("depth_reached"), int(1))));
+            let selfc = if rng.chance(1, 2) { call(&fname(k), vec![]) } else { dyncall(CardBody::Function(fname(k)).into(), vec![]) };
+            fault_ids.push(selfc.id.0);
+            overflow_selfcall = Some((selfc.id.0, ns_of(k)));
+            cards.push(discard(selfc));
+            cards.push(un("ret", int(1)));
+        } else if k == depth && recursion > 0 {
+            let selfc = if rng.chance(1, 2) { call(&fname(k), vec![bin("sub", read("d"), int(1))]) } else { dyncall(CardBody::Function(fname(k)).into(), vec![bin("sub", read("d"), int(1))]) };
+            for _ in 0..recursion {
+                self_calls.push((selfc.id.0, ns_of(k)));
+            }
+            cards.push(ifelse(bin("less", int(0), read("d")), comp(vec![discard(selfc)]), comp(fault_cards.clone())));
+            cards.push(un("ret", int(1)));
+        } else if k == depth {
             cards.extend(fault_cards.clone());
             if k > 0 {
                 cards.push(un("ret", int(1)));
@@ -201,7 +230,12 @@ fn plant(seed: u64) -> Planted {
             } else {
                 callee
             };
-            let args = vec![int(k as i64)];
+            let args = if k + 1 == depth && overflow {
+                cards.push(setg("depth_reached", int(0)));
+                vec![]
+            } else {
+                vec![if k + 1 == depth && recursion > 0 { int(recursion as i64) } else { int(k as i64) }]
+            };
             let style = rng.below(3);
             let callc = match style {
                 0 => call(&target, args),
@@ -223,9 +257,16 @@ fn plant(seed: u64) -> Planted {
         }
         bodies.push(cards);
     }
+    chain.extend(self_calls);
     chain.reverse();
     for (k, cards) in bodies.into_iter().enumerate() {
-        let f = if k == 0 { ("main".to_string(), func(&[], cards)) } else { (fname(k), func(&["d"], cards)) };
+        let f = if k == 0 {
+            ("main".to_string(), func(&[], cards))
+        } else if k == depth && overflow {
+            (fname(k), func(&[], cards))
+        } else {
+            (fname(k), func(&["d"], cards))
+        };
         if k > 0 && in_lib(k) {
             lib.functions.push(f);
         } else {
@@ -256,7 +297,25 @@ fn plant(seed: u64) -> Planted {
         memory_limit,
         depth,
         in_submodule,
+        recursion,
+        overflow_selfcall,
     }
+}
+
+/// run-length encoded list of card ids (recursion produces hundreds of equal entries)
+fn short_ids(ids: &[Option<u64>]) -> String {
+    let mut out: Vec<String> = Vec::new();
+    let mut i = 0;
+    while i < ids.len() {
+        let mut j = i;
+        while j < ids.len() && ids[j] == ids[i] {
+            j += 1;
+        }
+        let name = ids[i].map(|x| x.to_string()).unwrap_or_else(|| "-".into());
+        out.push(if j - i > 1 { format!("{name} x{}", j - i) } else { name });
+        i = j;
+    }
+    format!("[{}]", out.join(", "))
 }
 
 fn resolve(root: &Module, ns: &[String], index: &CardIndex) -> Result<u64, String> {
@@ -278,6 +337,11 @@ impl Engine for TraceEngine {
     }
     fn gen(&mut self, rng: &mut Prng, _tier: Tier) -> Case {
         Case { seed: rng.next_u64() }
+    }
+    fn describe(&self, case: &Case) -> serde_json::Value {
+        let p = plant(case.seed);
+        serde_json::json!({"seed": case.seed, "fault": p.kind, "context": p.context, "call_depth": p.depth, "sub_module_frames": p.in_submodule,
+            "budget": p.budget, "memory_limit": p.memory_limit, "program": crate::pp::module(&p.module, "")})
     }
     fn run(&mut self, case: &Case, obs: &mut Obs) -> Verdict {
         let p = plant(case.seed);
@@ -355,14 +419,35 @@ impl Engine for TraceEngine {
             let ns: Vec<String> = t.namespace.iter().map(|s| s.to_string()).collect();
             resolved.push((resolve(&p.module, &ns, &t.index).ok(), ns));
         }
+        let mut chain = p.chain.clone();
+        if let Some((id, ns)) = &p.overflow_selfcall {
+            // every activation counts itself before its self-call: with a activations, a-1 self-calls are active
+            // below the failing one
+            let d = match vm.read_var_by_name("depth_reached", &program.variables) {
+                Some(Value::Integer(d)) if d > 1 => d as usize - 1,
+                other => return Verdict::Inconclusive { reason: format!("the recursion counter reads {other:?}") },
+            };
+            if !matches!(err.payload, ExecutionErrorPayload::CallStackOverflow) {
+                return Verdict::Inconclusive { reason: format!("unbounded recursion ended with {}", crate::dval::err_kind(&err.payload)) };
+            }
+            for _ in 0..d {
+                chain.insert(0, (*id, ns.clone()));
+            }
+            obs.inc("recursion_to_call_stack_limit");
+            obs.max("recursive_frames_checked", d as u64);
+        }
+        if p.recursion > 0 {
+            obs.inc("faults_below_direct_recursion");
+        }
+        let p_chain = chain;
         let mut pos = 0;
-        for (want_id, want_ns) in p.chain.iter() {
+        for (want_id, want_ns) in p_chain.iter() {
             let found = resolved[pos..].iter().position(|(id, _)| *id == Some(*want_id));
             match found {
                 None => {
                     return Verdict::violation(
                         format!("C15:chain:missing-call-card:{}", p.kind),
-                        format!("the call chain has {} call cards {:?} (innermost first); trace[1..] resolves to {:?}", p.chain.len(), p.chain.iter().map(|c| c.0).collect::<Vec<_>>(), resolved.iter().map(|r| r.0).collect::<Vec<_>>()),
+                        format!("the call chain has {} call cards (innermost first, {} of them the recursive self-call): {:?}; trace[1..] has {} entries resolving to {:?}", p_chain.len(), p.recursion + if p.overflow_selfcall.is_some() { p_chain.len() - p.chain.len() } else { 0 }, short_ids(&p_chain.iter().map(|c| Some(c.0)).collect::<Vec<_>>()), resolved.len(), short_ids(&resolved.iter().map(|r| r.0).collect::<Vec<_>>())),
                     )
                 }
                 Some(off) => {
@@ -374,7 +459,7 @@ impl Engine for TraceEngine {
                 }
             }
         }
-        obs.add("chain_entries_checked", p.chain.len() as u64);
+        obs.add("chain_entries_checked", p_chain.len() as u64);
         if p.depth >= 2 {
             obs.inc("faults_at_depth>=2");
         }
